@@ -1,4 +1,219 @@
-//! C04 — not yet built
+//! C04 — parsing untrusted bytes never panics, aborts or hangs.
+//! Every case runs in the isolated worker (memory limit, per-case timeout, 8 MiB stack); the
+//! outcome class must be ok / err. `load` outcomes are also compared with the Lean model.
+use crate::codec::*;
 use crate::ctx::Ctx;
-pub fn run(c: &mut Ctx) { c.notes.push("C04: not implemented".into()); }
-pub fn worker_case(_case: &str) -> String { "unimplemented".into() }
+use crate::gen::*;
+use crate::iso::run_isolated;
+use crate::props::c01::load_reply;
+use crate::props::c02::*;
+use crate::refwriter::*;
+use crate::rng::Rng;
+use lopdf::content::Content;
+use lopdf::xref::XrefType;
+use lopdf::{Dictionary, Document, IncrementalDocument, Object, Stream};
+use serde_json::json;
+
+/// worker side: `<entry> <args…>`
+pub fn worker_case(case: &str) -> String {
+    let mut it = case.split(' ');
+    let entry = it.next().unwrap_or("");
+    let arg = |s: Option<&str>| s.and_then(unhex).unwrap_or_default();
+    match entry {
+        "L" => load_reply(&arg(it.next())),
+        "I" => { let b = arg(it.next()); match IncrementalDocument::load_from(&b[..]) { Ok(d) => format!("ok {}", d.get_prev_documents().objects.len()), Err(_) => "err".into() } }
+        "C" => { let b = arg(it.next()); match Content::decode(&b) { Ok(c) => format!("ok {}", c.operations.len()), Err(_) => "err".into() } }
+        "T" => { let b = arg(it.next()); match lopdf::decode_text_string(&Object::string_literal(b)) { Ok(s) => format!("ok {}", s.chars().count()), Err(_) => "err".into() } }
+        "F" => {
+            // F <filter,filter…> <parms-obj-tokens…> ; <hex>
+            let filters: Vec<&str> = it.next().unwrap_or("").split(',').filter(|s| !s.is_empty()).collect();
+            let rest: Vec<&str> = it.collect();
+            let semi = rest.iter().position(|t| *t == ";").unwrap_or(rest.len());
+            let mut d = Dictionary::new();
+            d.set("Filter", Object::Array(filters.iter().map(|f| Object::Name(f.as_bytes().to_vec())).collect()));
+            let toks: Vec<&str> = rest[..semi].to_vec();
+            if !toks.is_empty() { if let Some(p) = parse_obj(&mut toks.iter()) { d.set("DecodeParms", p); } }
+            let data = rest.get(semi + 1).and_then(|h| unhex(h)).unwrap_or_default();
+            let st = Stream { dict: d, content: data, allows_compression: true, start_position: None };
+            match st.decompressed_content() { Ok(v) => format!("ok {}", v.len()), Err(_) => "err".into() }
+        }
+        "O" => {
+            // object stream / xref stream decoding through a whole file is covered by L; here: ObjectStream::new directly
+            let rest: Vec<&str> = it.collect();
+            let semi = rest.iter().position(|t| *t == ";").unwrap_or(rest.len());
+            let toks: Vec<&str> = rest[..semi].to_vec();
+            let d = match parse_obj(&mut toks.iter()) { Some(Object::Dictionary(d)) => d, _ => Dictionary::new() };
+            let data = rest.get(semi + 1).and_then(|h| unhex(h)).unwrap_or_default();
+            let mut st = Stream { dict: d, content: data, allows_compression: true, start_position: None };
+            match lopdf::ObjectStream::new(&mut st) { Ok(o) => format!("ok {}", o.objects.len()), Err(_) => "err".into() }
+        }
+        "M" => {
+            // ToUnicode CMap text -> font encoding -> decode some bytes
+            let cmap = arg(it.next()); let text = arg(it.next());
+            let mut doc = Document::with_version("1.5");
+            let sid = doc.add_object(Object::Stream(Stream::new(Dictionary::new(), cmap)));
+            let mut font = Dictionary::new(); font.set("Type", Object::Name(b"Font".to_vec())); font.set("Encoding", Object::Name(b"Identity-H".to_vec())); font.set("ToUnicode", Object::Reference(sid));
+            match font.get_font_encoding(&doc) { Ok(enc) => match Document::decode_text(&enc, &text) { Ok(s) => format!("ok {}", s.chars().count()), Err(_) => "err".into() }, Err(_) => "err".into() }
+        }
+        _ => "bad-entry".into(),
+    }
+}
+
+const EXTREMES: &[&str] = &["0", "1", "-1", "2", "255", "256", "65535", "65536", "2147483647", "2147483648", "4294967295", "4294967296", "4000000000",
+    "9223372036854775807", "-9223372036854775808", "9223372036854775808", "18446744073709551615", "18446744073709551616", "99999999999999", "1099511627776",
+    "4611686018427387904", "-5", "00000000000000000000000007", "1e5", "0.5", "999999999999999999999999999999"];
+
+/// replace one run of digits in `b` by an extreme number
+fn mutate_number(r: &mut Rng, b: &mut Vec<u8>) {
+    let runs: Vec<(usize, usize)> = { let mut v = vec![]; let mut i = 0; while i < b.len() { if b[i].is_ascii_digit() { let s = i; while i < b.len() && b[i].is_ascii_digit() { i += 1; } v.push((s, i)); } else { i += 1; } } v };
+    if runs.is_empty() { return; }
+    let (s, e) = *r.pick(&runs);
+    let x = r.pick(EXTREMES).as_bytes().to_vec();
+    b.splice(s..e, x);
+}
+fn mutate_bytes(r: &mut Rng, b: &mut Vec<u8>) {
+    if b.is_empty() { b.push(r.byte()); return; }
+    match r.below(9) {
+        0 => { let k = r.usize(b.len()); b[k] ^= 1 << r.below(8); }
+        1 => { let k = r.usize(b.len()); b[k] = special_byte(r); }
+        2 => { let k = r.usize(b.len()); let n = 1 + r.usize(16.min(b.len() - k)); b.drain(k..k + n); }
+        3 => { let k = r.usize(b.len()); let n = 1 + r.usize(32.min(b.len() - k)); let chunk = b[k..k + n].to_vec(); let at = r.usize(b.len()); for (i, x) in chunk.into_iter().enumerate() { b.insert(at + i, x); } }
+        4 => { let k = r.usize(b.len()); b.truncate(k); }
+        5 => { const KW: &[&[u8]] = &[b"stream\n", b"endstream", b"endobj", b" obj ", b"<<", b">>", b"[", b"]", b"(", b")", b"xref\n", b"trailer", b"startxref\n", b"%%EOF", b" R ", b"/Length ", b"/Prev ", b"/W [", b"/Index [", b"/Filter /FlateDecode", b"/Type /ObjStm", b"/Type /XRef", b"BI ", b" ID ", b" EI "];
+               let k = r.usize(b.len() + 1); let kw: &[u8] = *r.pick(KW); for (i, x) in kw.iter().enumerate() { b.insert(k + i, *x); } }
+        6 | 7 => mutate_number(r, b),
+        _ => { let k = r.usize(b.len()); let n = r.usize(64); for _ in 0..n { b.insert(k, *r.pick(b"[<(")); } }
+    }
+}
+
+fn valid_file(r: &mut Rng, counters: &mut Counters) -> Vec<u8> {
+    match r.below(5) {
+        0 | 1 => { let mut d = gen_doc(r); d.reference_table.cross_reference_type = if r.chance(1, 2) { XrefType::CrossReferenceStream } else { XrefType::CrossReferenceTable }; let mut b = vec![]; let _ = d.save_to(&mut b); b }
+        2 | 3 => { let o = gen_aobjects(r, 8, 0); let e = gen_trailer_extra(r, &o); let st = gen_style(r); write_file(r, counters, &st, "1.6", &[Revision { objects: o, trailer_extra: e }]).bytes }
+        _ => { let names = ["example.pdf", "Incremental.pdf", "unicode.pdf"]; std::fs::read(format!("{}/assets/{}", repo_dir(), r.pick(&names))).unwrap_or_default() }
+    }
+}
+fn repo_dir() -> String { std::fs::read_link(concat!(env!("CARGO_MANIFEST_DIR"), "/../repo-link")).map(|p| p.to_string_lossy().to_string()).unwrap_or("/repo".into()) }
+
+/// grammar-directed adversarial constructions
+fn adversarial(r: &mut Rng, i: u64) -> (String, String) {
+    let x = |r: &mut Rng| r.pick(EXTREMES).to_string();
+    match i % 12 {
+        0 => { // xref stream with extreme W / Index / Size
+            let body = b"\x01\x00\x10\x00\x01\x00\x20\x00";
+            let f = format!("%PDF-1.5\n1 0 obj\n<</Type/Catalog>>\nendobj\n2 0 obj\n<</Type/XRef/Size {}/W[{} {} {}]/Index[{} {}]/Root 1 0 R/Length {}>>\nstream\n", x(r), x(r), x(r), x(r), x(r), x(r), body.len());
+            let mut b = f.into_bytes(); b.extend_from_slice(body); b.extend_from_slice(b"\nendstream\nendobj\nstartxref\n41\n%%EOF");
+            ("xrefstream-extremes".into(), format!("L {}", hex_tok(&b))) }
+        1 => { // xref table with extreme subsection header / entries
+            let f = format!("%PDF-1.4\n1 0 obj\n<</Type/Catalog>>\nendobj\nxref\n{} {}\n{:0>10} {:0>5} n \n0000000009 00000 n \ntrailer\n<</Size {}/Root 1 0 R/Prev {}>>\nstartxref\n41\n%%EOF", x(r), x(r), x(r), x(r), x(r), x(r));
+            ("xreftable-extremes".into(), format!("L {}", hex_tok(f.as_bytes()))) }
+        2 => { // nesting bombs
+            let depth = *r.pick(&[50usize, 127, 128, 129, 1000, 20000, 100000]);
+            let open: &[u8] = *r.pick(&[&b"["[..], b"<</A", b"[<</B[", b"("]);
+            let mut o = vec![]; for _ in 0..depth { o.extend_from_slice(open); }
+            let f = [b"%PDF-1.4\n1 0 obj\n".to_vec(), o, b"\nendobj\nxref\n0 2\n0000000000 65535 f \n0000000009 00000 n \ntrailer\n<</Size 2/Root 1 0 R>>\nstartxref\n".to_vec()].concat();
+            let sx = f.len() - "xref\n0 2\n0000000000 65535 f \n0000000009 00000 n \ntrailer\n<</Size 2/Root 1 0 R>>\nstartxref\n".len();
+            let mut f = f; f.extend_from_slice(format!("{}\n%%EOF", sx).as_bytes());
+            ("nesting-bomb".into(), format!("L {}", hex_tok(&f))) }
+        3 => { // nesting bombs in content streams
+            let depth = *r.pick(&[100usize, 129, 5000, 50000]);
+            let mut o = vec![]; let open: &[u8] = *r.pick(&[&b"["[..], b"<</A ", b"("]); for _ in 0..depth { o.extend_from_slice(open); }
+            ("content-nesting".into(), format!("C {}", hex_tok(&o))) }
+        4 => { // Prev cycles / self references / Length cycles
+            let f = format!("%PDF-1.4\n1 0 obj\n<</Length 2 0 R>>\nstream\nabc\nendstream\nendobj\n2 0 obj\n<</Length {} 0 R>>\nstream\nx\nendstream\nendobj\nxref\n0 3\n0000000000 65535 f \n0000000009 00000 n \n0000000062 00000 n \ntrailer\n<</Size 3/Root 1 0 R/Prev {}>>\nstartxref\n116\n%%EOF", 1 + r.below(2), *r.pick(&["116", "0", "9", "62"]));
+            ("cycles".into(), format!("L {}", hex_tok(f.as_bytes()))) }
+        5 => { // filters with extreme decode parameters
+            let filt = *r.pick(&["FlateDecode", "LZWDecode", "ASCII85Decode", "FlateDecode,ASCII85Decode", "ASCII85Decode,LZWDecode", "LZWDecode,LZWDecode,LZWDecode"]);
+            let parms = format!("D5 {} i{} {} i{} {} i{} {} i{} {} i{}", hex(b"Predictor"), r.pick(&["10", "12", "15", "2", "1", "14"]), hex(b"Columns"), clampi(&x(r)), hex(b"Colors"), clampi(&x(r)), hex(b"BitsPerComponent"), clampi(&x(r)), hex(b"EarlyChange"), r.below(2));
+            let data = if r.chance(1, 2) { let mut e = flate2::write::ZlibEncoder::new(vec![], flate2::Compression::fast()); use std::io::Write; let _ = e.write_all(&r.bytes(64)); e.finish().unwrap() } else { r.bytes(40) };
+            ("filter-extremes".into(), format!("F {} {} ; {}", filt, parms, hex_tok(&data))) }
+        6 => { // ASCII85 adversarial
+            let alphabet = b"!\"#$%&'()*+,-./0123456789:;<=>?@ABCDEFGHIJKLMNOPQRSTUVWXYZ[\\]^_`abcdefghijklmnopqrstuz~> \n";
+            let n = r.usize(40); let mut d: Vec<u8> = (0..n).map(|_| *r.pick(alphabet)).collect(); if r.chance(1, 2) { d.extend_from_slice(b"~>"); }
+            if r.chance(1, 4) { d = b"s8W-\"~>".to_vec(); }
+            ("a85".into(), format!("F ASCII85Decode ; {}", hex_tok(&d))) }
+        7 => { // inline image extremes
+            let f = format!("q BI /W {} /H {} /BPC {} /CS /{} ID abc EI Q", x(r), x(r), x(r), r.pick(&["RGB", "G", "DeviceCMYK", "Pattern", "X"]));
+            ("inline-image-extremes".into(), format!("C {}", hex_tok(f.as_bytes()))) }
+        8 => { // object stream with extreme First / N / index
+            let d = format!("D3 {} N{} {} i{} {} i{}", hex(b"Type"), hex(b"ObjStm"), hex(b"First"), clampi(&x(r)), hex(b"N"), clampi(&x(r)));
+            let body = format!("{} {} {} {} 1 0 true [1 2] <<>>", x(r), x(r), x(r), x(r));
+            ("objstm-extremes".into(), format!("O {} ; {}", d, hex_tok(body.as_bytes()))) }
+        9 => { // text strings
+            let mut b = match r.below(3) { 0 => vec![0xfe, 0xff], 1 => vec![0xef, 0xbb, 0xbf], _ => vec![] }; let nb = r.usize(9); b.extend(r.bytes(nb));
+            ("text-string".into(), format!("T {}", hex_tok(&b))) }
+        10 => { // CMap soups
+            const TOK: &[&str] = &["beginbfchar", "endbfchar", "beginbfrange", "endbfrange", "begincodespacerange", "endcodespacerange", "<00>", "<FFFF>", "<0000>", "<D800>", "<DC00>", "<00660069>", "[", "]", "<FFFFFFFF>", "<01>", "1", "2", "100", "begincmap", "endcmap", "/CMapName", "def", "<", ">", "<0>", "<FFFE>", "<0001> <FFFF> <FFFF>", "<00> <FF> [<0041>]"];
+            let mut s = String::from("/CIDInit /ProcSet findresource begin 12 dict begin begincmap 1 begincodespacerange <00> <FFFF> endcodespacerange ");
+            for _ in 0..r.usize(14) { let t: &str = *r.pick(TOK); s.push_str(t); s.push(' '); }
+            s.push_str("endcmap");
+            ("cmap-soup".into(), format!("M {} {}", hex_tok(s.as_bytes()), hex_tok(&r.bytes(6)))) }
+        _ => { // startxref / header oddities
+            let f = format!("{}%PDF-{}\n1 0 obj\nnull\nendobj\nxref\n0 2\n0000000000 65535 f \n0000000009 00000 n \ntrailer\n<</Size 2>>\nstartxref\n{}\n%%EOF{}", r.pick(&["", "junk", "%PDF-%PDF-"]), r.pick(&["1.4", "", "\u{e9}", "1.7\r"]), x(r), r.pick(&["", "\n", "%%EOF%%EOF%%EOF", " "]));
+            ("startxref-extremes".into(), format!("L {}", hex_tok(f.as_bytes()))) }
+    }
+}
+fn clampi(s: &str) -> String { s.parse::<i64>().map(|v| v.to_string()).unwrap_or_else(|_| "9223372036854775807".into()) }
+
+pub fn run(c: &mut Ctx) {
+    c.rule = "byte-level entry points (Document and IncrementalDocument loading, content decoding, stream filters, object streams, ToUnicode CMaps, \
+text strings) on (a) 1-4 structure-aware mutations (bit/byte/token edits, truncation, splicing, numeric extremes in digit runs) of valid files from \
+the C01/C02 generators and the repository assets, (b) grammar-directed adversarial constructions (W/Index/Size/Length/Prev/First extremes, nesting \
+bombs, cycles, predictor geometry, ASCII85, inline-image geometry, CMap soups); each case in an isolated worker (memory limit, timeout); lopdf built \
+with overflow checks. Outcome must be ok/err; `load` outcomes are also compared with the Lean reader model. Non-trivial = every case, distinct by case text.".into();
+    let mut counters = Counters::new();
+    let mut cases: Vec<(String, String, u64)> = vec![];   // (stream, case, case_id)
+    let n_mut = c.n(700, 12000);
+    for i in 0..n_mut {
+        let Some(mut r) = c.case("mutate", i) else { continue };
+        let mut b = valid_file(&mut r, &mut counters);
+        if b.len() > 6000 { b.truncate(6000); }
+        for _ in 0..1 + r.usize(4) { mutate_bytes(&mut r, &mut b); }
+        let entry = match r.below(8) { 0 => "I", 1 => "C", _ => "L" };
+        cases.push(("mutate".into(), format!("{} {}", entry, hex_tok(&b)), c.cur));
+    }
+    let n_adv = c.n(500, 8000);
+    for i in 0..n_adv {
+        let Some(mut r) = c.case("adversarial", i) else { continue };
+        let (stream, case) = adversarial(&mut r, i);
+        cases.push((stream, case, c.cur));
+    }
+    // fixed regression witnesses (repaired defects); reported through c.witness below
+    let witnesses: Vec<(&str, String, &str)> = vec![
+        ("F-C04-a", format!("F ASCII85Decode ; {}", hex_tok(b"s8W-\"~>")), "ASCII85 group value overflow"),
+        ("F-C04-b", format!("L {}", hex_tok(b"%PDF-1.5\n1 0 obj\n<</Type/XRef/Size 2/W[1 99999999999999 1]/Root 1 0 R/Length 3>>\nstream\nabc\nendstream\nendobj\nstartxref\n9\n%%EOF")), "xref stream with a field width of 10^14"),
+        ("F-C04-c", format!("L {}", hex_tok(b"%PDF-1.5\n1 0 obj\n<</Type/XRef/Size 2/W[0 0 0]/Index[0 4000000000]/Root 1 0 R/Length 3>>\nstream\nabc\nendstream\nendobj\nstartxref\n9\n%%EOF")), "xref stream with zero-width rows and a count of 4e9"),
+        ("F-C04-d", { let mut o = b"%PDF-1.4\n1 0 obj\n".to_vec(); o.extend(vec![b'['; 20000]); o.extend_from_slice(b"\nendobj\nxref\n0 2\n0000000000 65535 f \n0000000009 00000 n \ntrailer\n<</Size 2>>\nstartxref\n20024\n%%EOF"); format!("L {}", hex_tok(&o)) }, "20000 nested arrays"),
+        ("F-C04-g", format!("C {}", hex_tok(b"BI /W 9223372036854775807 /H 9223372036854775807 /BPC 8 /CS /RGB ID x EI")), "inline image with overflowing geometry"),
+        ("F-C04-i", format!("L {}", hex_tok(b"%PDF-1.4\n1 0 obj\nnull\nendobj\nxref\n18446744073709551615 2\n0000000009 00000 n \n0000000009 00000 n \ntrailer\n<</Size 2>>\nstartxref\n27\n%%EOF")), "xref table subsection start = usize::MAX"),
+        ("F-C04-j", format!("L {}", hex_tok(b"%PDF-1.5\n1 0 obj\n<</Type/XRef/Size 2/W[1 1 1]/Index[9223372036854775807 2]/Root 1 0 R/Length 6>>\nstream\n\x01\x09\x00\x01\x09\x00\nendstream\nendobj\nstartxref\n9\n%%EOF")), "xref stream Index start = i64::MAX"),
+        ("F-C04-e", format!("F FlateDecode D3 {} i12 {} i4611686018427387904 {} i4 ; {}", hex(b"Predictor"), hex(b"Columns"), hex(b"Colors"), hex_tok(&[0x78, 0x9c, 0x03, 0x00, 0x00, 0x00, 0x00, 0x01])), "PNG predictor geometry overflow"),
+    ];
+    let wit_cases: Vec<String> = witnesses.iter().map(|w| w.1.clone()).collect();
+    if c.only.is_none() {
+        let out = run_isolated("C04", &wit_cases, 5000, 2048);
+        for (w, o) in witnesses.iter().zip(out.iter()) {
+            let bad = !(o.starts_with("ok") || o.starts_with("err"));
+            c.witness(w.0, bad, &format!("{} -> {}", w.2, o.chars().take(80).collect::<String>()));
+        }
+    }
+    // run all cases isolated
+    let case_strs: Vec<String> = cases.iter().map(|x| x.1.clone()).collect();
+    let outs = run_isolated("C04", &case_strs, 4000, 2048);
+    for ((stream, case, id), out) in cases.iter().zip(outs.iter()) {
+        c.cur = *id;
+        c.nontrivial(case);
+        let class = if out.starts_with("ok") { "ok" } else if out.starts_with("err") { "err" } else if out.starts_with("panic") { "panic" } else if out.starts_with("timeout") { "timeout" } else { "abort" };
+        c.count(&format!("{}.{}", stream, class));
+        if class != "ok" && class != "err" {
+            let sig = if class == "panic" { format!("panic@{}", out.split(' ').nth(1).unwrap_or("?")) } else { format!("{}:{}", class, stream) };
+            c.oracle_fail(&sig, &format!("entry point {} -> {}", &case[..1], out.chars().take(160).collect::<String>()), json!({"case": if case.len() < 4000 { case.clone() } else { format!("{}…", &case[..4000]) }, "stream": stream}));
+        }
+        // model correspondence for load outcomes (files up to 8 kB to bound the driver's work)
+        if case.starts_with("L ") && case.len() < 16000 && (class == "ok" || class == "err") {
+            c.corr(format!("load {}", &case[2..]), out.clone());
+        }
+        if c.samples.len() < 3 && class == "err" { c.sample(json!({"stream": stream, "outcome": out.chars().take(60).collect::<String>(), "case": case.chars().take(200).collect::<String>()})); }
+    }
+    for (k, v) in counters { c.count_n(&format!("choice.{}", k), v); }
+}
